@@ -225,3 +225,33 @@ CHECKS = {
                      "min_counters": {"clusters_formed": 40, "nemesis.two_nodes_down": 10}},
     },
 }
+
+
+# ---- caps --------------------------------------------------------------------------------------------------------------------
+# Minimum-observation thresholds exist to make a run that observed (almost) nothing inconclusive, not to measure the
+# machine: each is capped at a quarter of what a clean pass on an idle 16-core machine observed (observed_<tier>.json,
+# written by cap_thresholds.py from the evidence files).
+def _apply_caps():
+    import json as _json, os as _os
+    here = _os.path.dirname(_os.path.abspath(__file__))
+    for tier in ("quick", "thorough"):
+        path = _os.path.join(here, f"observed_{tier}.json")
+        if not _os.path.exists(path):
+            continue
+        obs = _json.load(open(path))
+        for prop, o in obs.items():
+            t = CHECKS.get(prop, {}).get(tier)
+            if not t:
+                continue
+            if "min_evals" in t:
+                t["min_evals"] = max(1, min(t["min_evals"], o["evaluations"] // 4))
+            if "min_nontrivial" in t:
+                t["min_nontrivial"] = max(2, min(t["min_nontrivial"], o["distinct_nontrivial"] // 4))
+            mc = t.get("min_counters")
+            if mc is None and tier == "quick" and "min_counters" in CHECKS[prop]:
+                mc = t["min_counters"] = dict(CHECKS[prop]["min_counters"])
+            for k in list(mc or {}):
+                mc[k] = max(1, min(mc[k], o["counters"].get(k, 0) // 4)) if o["counters"].get(k, 0) >= 4 else 1
+
+
+_apply_caps()
